@@ -38,7 +38,15 @@ Lemma w_group0 h l a b : words_call (VFun (of_string "group")) (VList [VTuple [h
 Proof. change (words_call (VFun (of_string "group")) ?x) with (sub_call rx_of (VFun (of_string "group")) x). apply call_group0. Qed.
 
 Variables (cls : list Z) (rw rh : pyval) (a : word_anonymizer).
-Hypothesis Hrx : rx_of rh = Some (w_regex a).
+Definition words_contract (pc : pyval -> pyval -> PyLib.res) : Prop :=
+  (forall l, pc (VFun (of_string "search")) (VList [rh; vstr l]) = match search l (w_regex a) with Some _ => Normal (VBool true) | None => Normal VNone end) /\
+  sub_contract pc rh (w_regex a).
+Lemma words_call_contract : rx_of rh = Some (w_regex a) -> words_contract words_call.
+Proof.
+  intro H. split; [intro l; now apply w_search|]. split; intros; [now apply w_finditer|apply w_group0].
+Qed.
+Variable pc : pyval -> pyval -> PyLib.res.
+Hypothesis Hpc : words_contract pc.
 Notation O d := (wobj cls rw rh (vres (w_conflicting a)) (w_salt a) d).
 Definition w_cb (w : str) (st : bool) (i j : nat) (_ : caps) : bool * list chr :=
   match word_pseudonym (w_salt a) (substr w i j) with Done p => (st, p) | Raised _ => (false, []) end.
@@ -54,12 +62,12 @@ Qed.
 
 Theorem gen_words_anonymize_refines fuel line l d : cache_ok (w_salt a) d -> ascii line ->
   anonymize_words_line a line = Done l ->
-  exists d', gen_SensitiveWordAnonymizer__anonymize words_call fuel (O d) (vstr line) = Normal (VTuple [vstr l; O d']) /\ cache_ok (w_salt a) d'.
+  exists d', gen_SensitiveWordAnonymizer__anonymize pc fuel (O d) (vstr line) = Normal (VTuple [vstr l; O d']) /\ cache_ok (w_salt a) d'.
 Proof.
   intros Hd Hasc. unfold anonymize_words_line, gen_SensitiveWordAnonymizer__anonymize.
   assert (Grx : forall d0, py_getattr (O d0) "sens_regex" = Normal rh) by reflexivity.
   assert (Gcw : forall d0, py_getattr (O d0) "conflicting_words" = Normal (vres (w_conflicting a))) by reflexivity.
-  rewrite Grx. cbn [PyLib.bind]. rewrite (w_search rh (w_regex a) line Hrx).
+  rewrite Grx. cbn [PyLib.bind]. rewrite (proj1 Hpc line).
   destruct (search line (w_regex a)) as [m0|]; cbn [PyLib.bind is_none negb truthy PyLib.bindS call].
   2:{ intros [= <-]. exists d. split; [reflexivity|exact Hd]. }
   rewrite gen_split_line_refines. destruct (split_line line) as [[leading words] trailing] eqn:Esp. cbn [PyLib.bind unpack3 py_iter].
@@ -88,7 +96,7 @@ Proof.
         fold (w_cb w) in Etok. rewrite sub_loop_fold in Etok.
         set (ms := matches w (S (slen w)) (w_regex a) 0) in *. destruct (run_cb (w_cb w) true ms) as [st reps] eqn:Er. destruct st; [|discriminate]. injection Etok as <-.
         destruct (w_cb_all w ms true reps Er) as [_ HF].
-        rewrite Grx. cbn [PyLib.bind]. rewrite (w_finditer rh (w_regex a) w Hrx). change (matches w (S (Datatypes.length w)) (w_regex a) 0) with ms. cbn [PyLib.bind py_iter].
+        rewrite Grx. cbn [PyLib.bind]. rewrite (proj1 (proj2 Hpc) w). change (matches w (S (Datatypes.length w)) (w_regex a) 0) with ms. cbn [PyLib.bind py_iter].
         match goal with |- context [py_for (map (enc_match w rh) ms) ?b _] => set (IB := b) end.
         assert (Hin : forall ms0 reps0 dd racc jm, Forall2 (fun m rep => word_pseudonym (w_salt a) (substr w (fst (fst m)) (snd (fst m))) = Done rep) ms0 reps0 -> cache_ok (w_salt a) dd ->
                   exists dd' jm', py_for (map (enc_match w rh) ms0) IB (O dd, vstr line, VList (map vstr words), vstr leading, vstr trailing, vstr w, VList acc, jm, VList racc)
@@ -98,8 +106,8 @@ Proof.
           - cbn [fst snd] in Hm. unfold IB at 1. cbv beta iota. cbn [enc_match].
             replace (py_getitem (VTuple [VInt (Z.of_nat i); VInt (Z.of_nat j0); VTuple [rh; vstr w; VInt (Z.of_nat i); VInt (Z.of_nat j0)]]) (VInt 2))
               with (@Normal pyval (VTuple [rh; vstr w; VInt (Z.of_nat i); VInt (Z.of_nat j0)])) by reflexivity.
-            cbn [PyLib.bind]. unfold gen_SensitiveWordAnonymizer___lookup_anon_word. rewrite w_group0. cbn [PyLib.bind].
-            pose proof (gen_word_replacement words_call fuel cls rw rh (vres (w_conflicting a)) (w_salt a) dd (substr w i j0) Hdd) as Hrep. rewrite Hm in Hrep.
+            cbn [PyLib.bind]. unfold gen_SensitiveWordAnonymizer___lookup_anon_word. rewrite (proj2 (proj2 Hpc)). cbn [PyLib.bind].
+            pose proof (gen_word_replacement pc fuel cls rw rh (vres (w_conflicting a)) (w_salt a) dd (substr w i j0) Hdd) as Hrep. rewrite Hm in Hrep.
             destruct Hrep as (dd1 & Erep & Hdd1). rewrite Erep. cbn [PyLib.bind unpack2 call py_list_append].
             destruct (IHin dd1 (racc ++ [vstr rep]) (VTuple [rh; vstr w; VInt (Z.of_nat i); VInt (Z.of_nat j0)]) Hdd1) as (dd' & jm' & Ei & Hdd'). rewrite Ei.
             exists dd', jm'. split; [|exact Hdd']. cbn [map]. now rewrite <- app_assoc. }
